@@ -389,7 +389,12 @@ class TaggedUnionConverter(UnionConverter):
         inner_conv = self.converters[self.tag_map[tag]]
         if self.external is False:
             # internally tagged
-            return inner_conv.into_data(val)
+            data = inner_conv.into_data(val)
+            if data_is_mapping(data) and self.tag not in data:
+                # the variant wrote its tag field under another name (a rename style, an explicit output name):
+                # parsing looks the tag up under `self.tag`, so write it under that key as well
+                data = {self.tag: tag, **t.cast(t.Mapping[t.Any, t.Any], data)}
+            return data
         if self.external is True:
             # externally tagged
             return {tag: inner_conv.into_data(val)}
